@@ -19,7 +19,7 @@ backend: cadical
 unwind: 10
 unwind_thorough: 12
 flags: --memory-leak-check
-bound: list length <= 4, elements NULL placeholders or any key
+bound: list length <= 4, elements NULL placeholders or any key [thorough tier: lengths up to 5]
 funcs: spif_dlinked_list_done, spif_dlinked_list_del, spif_dlinked_list_item_del, spif_dlinked_list_item_done, spif_dlinked_list_append
 */
 /*@unit
@@ -31,7 +31,7 @@ backend: cadical
 unwind: 10
 unwind_thorough: 12
 flags: --memory-leak-check
-bound: list length <= 4, all 2^32 index values, all key values
+bound: list length <= 4, all 2^32 index values, all key values [thorough tier: lengths up to 5]
 funcs: spif_dlinked_list_remove_at, spif_dlinked_list_remove, spif_dlinked_list_del
 */
 /*@unit
@@ -43,7 +43,7 @@ backend: cadical
 unwind: 10
 unwind_thorough: 12
 flags: --memory-leak-check
-bound: list length 1..4, index up to len+2 (placeholder nodes are created and must be freed by del)
+bound: list length 1..4, index up to len+2 (placeholder nodes are created and must be freed by del) [thorough tier: lengths up to 5]
 funcs: spif_dlinked_list_insert_at, spif_dlinked_list_del
 */
 /*@unit
@@ -55,7 +55,7 @@ backend: cadical
 unwind: 10
 unwind_thorough: 12
 flags: --memory-leak-check
-bound: list length <= 4
+bound: list length <= 4 [thorough tier: lengths up to 5]
 funcs: spif_dlinked_list_to_array, spif_dlinked_list_iterator, spif_dlinked_list_iterator_del, spif_dlinked_list_del
 */
 /*@unit
@@ -67,7 +67,7 @@ backend: cadical
 unwind: 10
 unwind_thorough: 12
 flags: --memory-leak-check
-bound: list length 1..4, elements of any key, no placeholder (dup of placeholders: see C05 finding)
+bound: list length 1..4, elements of any key, no placeholder (dup of placeholders: see C05 finding) [thorough tier: lengths up to 5]
 funcs: spif_dlinked_list_dup, spif_dlinked_list_del
 */
 /*@unit
@@ -80,7 +80,7 @@ unwind: 10
 unwind_thorough: 12
 objbits: 10
 flags: --memory-leak-check
-bound: map size <= 4, all key and value keys (insert and overwrite)
+bound: map size <= 4, all key and value keys (insert and overwrite) [thorough tier: lengths up to 5]
 funcs: spif_dlinked_list_set, spif_objpair_set_value, spif_objpair_del, spif_objpair_done, spif_dlinked_list_del
 */
 /*@unit
@@ -93,7 +93,7 @@ unwind: 10
 unwind_thorough: 12
 objbits: 10
 flags: --memory-leak-check
-bound: map size <= 4, all key and value keys
+bound: map size <= 4, all key and value keys [thorough tier: lengths up to 5]
 funcs: spif_dlinked_list_map_remove, spif_objpair_del, spif_dlinked_list_del
 */
 /*@unit
@@ -106,7 +106,7 @@ unwind: 10
 unwind_thorough: 12
 objbits: 10
 flags: --memory-leak-check
-bound: map size <= 4, all key and value keys
+bound: map size <= 4, all key and value keys [thorough tier: lengths up to 5]
 funcs: spif_dlinked_list_get_keys, spif_dlinked_list_get_values, spif_dlinked_list_get_pairs, spif_dlinked_list_del
 */
 #include "vprelude.h"
